@@ -67,6 +67,9 @@ func (o c18Op) String() string {
 	if o.Addr >= 0 && o.Addr < len(c18Addrs) {
 		a = c18Addrs[o.Addr]
 	}
+	if o.Live && o.ErrK != 0 {
+		v += fmt.Sprintf(" with the dial error %q", c18Err(&o))
+	}
 	s := fmt.Sprintf("q(%s port %d; probe would say %s)", a, o.Port, v)
 	if len(o.Nested) > 0 {
 		s += fmt.Sprintf("{while probing: %v}", o.Nested)
@@ -97,12 +100,10 @@ var c18Addrs = []string{"192.0.2.1", "192.0.2.2", "2001:db8::3", "192.0.2.4", "2
 
 const c18OddFrom = 6
 
-// The error values phantomIsLive really produces: (true, ErrLiveHost), (true, <dial error>),
-// (false, NotLive), (false, fmt.Errorf("%w %v", NotLive, timeout)).
-var (
-	c18ErrsLive = []error{ErrLiveHost, &net.OpError{Op: "dial", Net: "tcp", Err: errors.New("connect: connection refused")}}
-	c18ErrsNon  = []error{NotLive, fmt.Errorf("%w %v", NotLive, 750*time.Millisecond)}
-)
+// The error values phantomIsLive really produces: (true, ErrLiveHost), (true, <any dial error that
+// is not a time-out>) — see zz_verif_c18_faults_test.go for that alphabet —, (false, NotLive),
+// (false, fmt.Errorf("%w %v", NotLive, timeout)).
+var c18ErrsNon = []error{NotLive, fmt.Errorf("%w %v", NotLive, 750*time.Millisecond)}
 
 func c18Err(o *c18Op) error {
 	k := o.ErrK
@@ -110,7 +111,8 @@ func c18Err(o *c18Op) error {
 		k = -k
 	}
 	if o.Live {
-		return c18ErrsLive[k%len(c18ErrsLive)]
+		e, _ := c18LiveErrOf(k)
+		return e
 	}
 	return c18ErrsNon[k%len(c18ErrsNon)]
 }
@@ -381,6 +383,46 @@ func (r *c18Run) lens() [2]int {
 	return l
 }
 
+// judgeCached: is (live, ErrCachedPhantom) a legitimate answer from the cache, given the completed
+// measurements hist of the address (in completion order)? Returns a violation key and message, or "".
+func (r *c18Run) judgeCached(o *c18Op, live bool, hist []c18Meas) (string, string) {
+	s := r.sys
+	ci := c18Ci(live)
+	cn := c18ClassName[ci]
+	if !s.on[ci] {
+		return "served:" + cn + "-caching-disabled", fmt.Sprintf("%v answered %q from the cache although caching of %s verdicts is not configured", *o, cn, cn)
+	}
+	if len(hist) == 0 {
+		return "served-unmeasured", fmt.Sprintf("%v answered %q from the cache but the address was never measured", *o, cn)
+	}
+	if !r.weak[o.Addr] {
+		last := hist[len(hist)-1]
+		if last.live != live {
+			return "flipped", fmt.Sprintf("%v answered %q from the cache but the last measurement of this address (%v ago) said %q", *o, cn, r.age(last), c18ClassName[c18Ci(last.live)])
+		}
+		if r.age(last) >= s.life[ci] {
+			return "stale:" + cn, fmt.Sprintf("%v answered %q from the cache; that was measured %v ago, the %s lifetime is %v", *o, cn, r.age(last), cn, s.life[ci])
+		}
+	} else {
+		same, fresh := false, false
+		for _, m := range hist {
+			if m.live == live {
+				same = true
+				if r.age(m) < s.life[ci] {
+					fresh = true
+				}
+			}
+		}
+		if !same {
+			return "flipped", fmt.Sprintf("%v answered %q from the cache but no measurement of this address ever said so", *o, cn)
+		}
+		if !fresh {
+			return "stale:" + cn, fmt.Sprintf("%v answered %q from the cache; every such measurement is older than the %s lifetime %v", *o, cn, cn, s.life[ci])
+		}
+	}
+	return "", ""
+}
+
 func (r *c18Run) query(o *c18Op, depth int) {
 	s := r.sys
 	addr := c18Addrs[o.Addr]
@@ -429,42 +471,9 @@ func (r *c18Run) query(o *c18Op, depth int) {
 			return
 		}
 		hist := r.meas[o.Addr]
-		if !s.on[ci] {
-			r.fail("served:"+cn+"-caching-disabled", "%v answered %q from the cache although caching of %s verdicts is not configured", *o, cn, cn)
+		if k, m := r.judgeCached(o, live, hist); k != "" {
+			r.fail(k, "%s", m)
 			return
-		}
-		if len(hist) == 0 {
-			r.fail("served-unmeasured", "%v answered %q from the cache but the address was never measured", *o, cn)
-			return
-		}
-		if !r.weak[o.Addr] {
-			last := hist[len(hist)-1]
-			if last.live != live {
-				r.fail("flipped", "%v answered %q from the cache but the last measurement of this address (%v ago) said %q", *o, cn, r.age(last), c18ClassName[c18Ci(last.live)])
-				return
-			}
-			if r.age(last) >= s.life[ci] {
-				r.fail("stale:"+cn, "%v answered %q from the cache; that was measured %v ago, the %s lifetime is %v", *o, cn, r.age(last), cn, s.life[ci])
-				return
-			}
-		} else {
-			same, fresh := false, false
-			for _, m := range hist {
-				if m.live == live {
-					same = true
-					if r.age(m) < s.life[ci] {
-						fresh = true
-					}
-				}
-			}
-			if !same {
-				r.fail("flipped", "%v answered %q from the cache but no measurement of this address ever said so", *o, cn)
-				return
-			}
-			if !fresh {
-				r.fail("stale:"+cn, "%v answered %q from the cache; every such measurement is older than the %s lifetime %v", *o, cn, cn, s.life[ci])
-				return
-			}
 		}
 		if pre[ci].kind == "lru" && !pre[ci].inLRU {
 			r.fail("evicted-served:"+cn, "%v answered %q from the cache although the LRU no longer held this address (evicted / removed entry served)", *o, cn)
@@ -489,6 +498,42 @@ func (r *c18Run) query(o *c18Op, depth int) {
 		if want := net.JoinHostPort(addr, strconv.Itoa(int(o.Port))); f.got != want {
 			r.fail("probe-address", "%v probed %q, want %q", *o, f.got, want)
 			return
+		}
+		fk := c18FaultKind(o)
+		var held [2]bool
+		for hc := 0; hc < 2; hc++ {
+			held[hc] = c18Has(pre[hc].keys, addr)
+		}
+		if fk != "" {
+			// the scan failed on the station's side; what the cache held for the address when the
+			// query came in (it was not servable, or there would have been no probe)
+			r.st["probe-fault"] = true
+			r.st["probe-fault:"+fk] = true
+			for hc := 0; hc < 2; hc++ {
+				if held[hc] {
+					r.st["fault-reprobe:"+c18ClassName[hc]+"-entry-held"] = true
+				}
+			}
+			if !held[0] && !held[1] {
+				r.st["fault-probe:nothing-held"] = true
+			}
+			if len(r.meas[o.Addr]) > len(prev)+1 {
+				r.st["fault-probe:same-address-measured-meanwhile"] = true
+			}
+		}
+		if errors.Is(err, ErrCachedPhantom) && err != c18Err(o) {
+			// A probe was made, yet the caller is given an answer marked as taken from the cache:
+			// judged as a cache answer, against the measurements completed before this probe's own
+			// (its own outcome is not what it was given). An entry that is past its lifetime must
+			// not be served whatever the re-probe reported.
+			hist := r.meas[o.Addr]
+			if n := len(hist); n > 0 {
+				hist = hist[:n-1]
+			}
+			if k, m := r.judgeCached(o, live, hist); k != "" {
+				r.fail(k, "the probe made for this query said (%v, %v), but the caller was answered (%v, %v) from the cache: %s", o.Live, c18Err(o), live, err, m)
+				return
+			}
 		}
 		if live != o.Live || err != c18Err(o) {
 			r.fail("probe-result-altered", "%v: the probe said (%v, %v) but PhantomIsLive returned (%v, %v)", *o, o.Live, c18Err(o), live, err)
